@@ -59,7 +59,8 @@ def run_rb(run, exe, trace_mod="TraceRingBuf", trace_cfg="TraceRingBuf.cfg", cfg
     sample_trace(run, traces[0], 10)
     n = nrandom or (6000 if run.thorough() else 1000)
     gen = "Gen %d %d 0\nGen %d %d 1\n" % (run.seed * 10 + 1, n, run.seed * 10 + 2, n)
-    gen += "Late 2 %d\nLate 3 2600\nLate 5 700\n" % (70000 if run.thorough() else 4200)   # long-blocked ringbuf_putchar
+    gen += "Late 2 %d\nLate 3 2600\nLate 5 700\n" % (400000 if run.thorough() else 110000)   # long-blocked ringbuf_putchar
+    gen += "Fill 70001 0\nFill 65537 65530\n"                                                     # rings larger than 64 KiB, filled completely
     tr = exec_script(run, exe, [], gen, run.path(tagp + "random.ndjson"), "random-schedules")
     if validate:
         check_trace(run, "random-schedules", trace_mod, trace_cfg, tr)
